@@ -81,6 +81,90 @@ func runC09(c *core.Ctx) {
 	c.Cases("wclose", c.N(260, 12000), func(k *core.Case) { c09Writer(k) })
 	c.Cases("rclose", c.N(160, 7000), func(k *core.Case) { c09Reader(k) })
 	c.Cases("transport", c.N(60, 3000), func(k *core.Case) { c09Transport(k) })
+	c.Cases("startclose", c.N(160, 4000), func(k *core.Case) { c09StartClose(k) })
+}
+
+// c09StartClose: Close racing with the call that starts (first FetchMessage / ReadMessage) or restarts
+// (SetOffset) the partition readers of a plain Reader. The windows are a few instructions wide, so one
+// case makes 40 attempts with fresh readers, the two calls released together after a random spin.
+func c09StartClose(k *core.Case) {
+	c := k.Ctx
+	r := k.R
+	net := fakenet.New()
+	cl := fakecluster.New(net)
+	defer cl.Close()
+	cl.MaxWaitCap = 5 * time.Millisecond
+	cl.AddBroker(1, "")
+	cl.AddTopic("t0", 1, nil)
+	cl.Lock()
+	pt := cl.Topics["t0"].Partitions[0]
+	var recs []refcodec.Rec
+	for i := 0; i < 5; i++ {
+		recs = append(recs, refcodec.Rec{Offset: int64(i), TimestampMs: tsBase + int64(i), Value: []byte(fmt.Sprintf("v%d", i))})
+	}
+	enc, _ := refcodec.NewBatchV2(recs, 0, -1, 0).Encode(refcodec.CompressOpts{})
+	pt.AppendStored(&fakecluster.Stored{Bytes: enc, BaseOffset: 0, LastOffset: 4}, recs)
+	cl.Unlock()
+	variant := core.Pick(r, "first-fetch", "first-fetch", "first-read", "setoffset")
+	k.Describe(map[string]any{"list": "startclose", "variant": variant, "attempts": 40})
+	base, _ := libGoroutines(readerMarkers...)
+	for a := 0; a < 40; a++ {
+		rd := kafka.NewReader(kafka.ReaderConfig{Brokers: []string{"b1:9092"}, Topic: "t0", Partition: 0, Dialer: &kafka.Dialer{DialFunc: net.Dialer("rd"), ClientID: "rd", Timeout: 300 * time.Millisecond},
+			MaxWait: 5 * time.Millisecond, ReadBatchTimeout: 200 * time.Millisecond, ReadBackoffMin: time.Millisecond, ReadBackoffMax: 5 * time.Millisecond, MinBytes: 1, MaxBytes: 1 << 20, ReadLagInterval: -1, MaxAttempts: 2})
+		ctx, cancel := context.WithCancel(context.Background())
+		if variant == "setoffset" {
+			rd.FetchMessage(ctx) // readers are running: SetOffset restarts them
+		}
+		gate := make(chan struct{})
+		spinA, spinB := r.Intn(3000), r.Intn(3000)
+		starterDone := make(chan struct{})
+		go func() {
+			defer close(starterDone)
+			<-gate
+			for i := 0; i < spinA; i++ {
+				_ = i
+			}
+			switch variant {
+			case "first-fetch":
+				rd.FetchMessage(ctx)
+			case "first-read":
+				rd.ReadMessage(ctx)
+			case "setoffset":
+				rd.SetOffset(2)
+			}
+		}()
+		closeDone := make(chan struct{})
+		go func() {
+			defer close(closeDone)
+			<-gate
+			for i := 0; i < spinB; i++ {
+				_ = i
+			}
+			rd.Close()
+		}()
+		close(gate)
+		c.Eval(1)
+		select {
+		case <-closeDone:
+		case <-time.After(15 * time.Second):
+			_, stacks := libGoroutines(readerMarkers...)
+			cancel()
+			k.TimeViol("c09:reader-close-hangs:start-race:"+variant, fmt.Sprintf("Reader.Close did not return within 15 s when it raced with %s on a plain Reader (attempt %d)", variant, a), map[string]any{"goroutines": stacks})
+			return
+		}
+		select {
+		case <-starterDone:
+		case <-time.After(15 * time.Second):
+			cancel()
+			k.TimeViol("c09:call-blocked-after-close:start-race:"+variant, fmt.Sprintf("the %s call that raced with Close had not returned 15 s after Close returned", variant), nil)
+			return
+		}
+		cancel()
+	}
+	if n, stacks := waitNoGoroutines(5*time.Second, readerMarkers...); n > base {
+		k.TimeViol("c09:reader-goroutine-leak:start-race", fmt.Sprintf("%d goroutines of closed Readers are still alive 5 s after the last Close returned", n-base), map[string]any{"goroutines": stacks, "variant": variant})
+	}
+	c.Distinct("startclose " + variant)
 }
 
 var readerMarkers = []string{"kafka-go.(*Reader).", "kafka-go.(*reader).", "kafka-go.(*ConsumerGroup).", "kafka-go.(*Generation).", "kafka-go.NewConsumerGroup"}
